@@ -2,7 +2,9 @@
 use super::*;
 use std::net::{Ipv4Addr, SocketAddrV4};
 
-fn no_bt() -> bool { false }
+fn no_bt() -> bool {
+    false
+}
 
 /// Complete: for EVERY IPv6 socket address (16 address bytes, port, flowinfo, scope id) the classification is
 /// Mixed / Relay / Custom exactly for prefix fd15:070a:510b + subnet 0000/0001/0003 and carries the same address;
@@ -16,18 +18,39 @@ fn classify_v6_total() {
     let scope: u32 = kani::any();
     let sa = SocketAddr::V6(SocketAddrV6::new(Ipv6Addr::from(o), port, flow, scope));
     // iroh's reserved range: the ULA prefix byte + n0's global id (the module's own constants)
-    let in_range = o[0] == ADDR_PREFIXL && o[1] == ADDR_GLOBAL_ID[0] && o[2] == ADDR_GLOBAL_ID[1] && o[3] == ADDR_GLOBAL_ID[2]
-        && o[4] == ADDR_GLOBAL_ID[3] && o[5] == ADDR_GLOBAL_ID[4];
+    let in_range = o[0] == ADDR_PREFIXL
+        && o[1] == ADDR_GLOBAL_ID[0]
+        && o[2] == ADDR_GLOBAL_ID[1]
+        && o[3] == ADDR_GLOBAL_ID[2]
+        && o[4] == ADDR_GLOBAL_ID[3]
+        && o[5] == ADDR_GLOBAL_ID[4];
     let sub = [o[6], o[7]];
-    kani::cover!(in_range && sub == RELAY_MAPPED_SUBNET, "a relay-range address exists");
+    kani::cover!(
+        in_range && sub == RELAY_MAPPED_SUBNET,
+        "a relay-range address exists"
+    );
     kani::cover!(!in_range, "an ordinary address exists");
     match MultipathMappedAddr::from(sa) {
-        MultipathMappedAddr::Mixed(a) => { assert!(in_range && sub == ENDPOINT_ID_SUBNET); assert!(a.0 == Ipv6Addr::from(o)); }
-        MultipathMappedAddr::Relay(a) => { assert!(in_range && sub == RELAY_MAPPED_SUBNET); assert!(a.0 == Ipv6Addr::from(o)); }
-        MultipathMappedAddr::Custom(a) => { assert!(in_range && sub == CUSTOM_MAPPED_SUBNET); assert!(a.0 == Ipv6Addr::from(o)); }
+        MultipathMappedAddr::Mixed(a) => {
+            assert!(in_range && sub == ENDPOINT_ID_SUBNET);
+            assert!(a.0 == Ipv6Addr::from(o));
+        }
+        MultipathMappedAddr::Relay(a) => {
+            assert!(in_range && sub == RELAY_MAPPED_SUBNET);
+            assert!(a.0 == Ipv6Addr::from(o));
+        }
+        MultipathMappedAddr::Custom(a) => {
+            assert!(in_range && sub == CUSTOM_MAPPED_SUBNET);
+            assert!(a.0 == Ipv6Addr::from(o));
+        }
         MultipathMappedAddr::Ip(a) => {
             // an ordinary address is never one of the three synthetic kinds
-            assert!(!(in_range && (sub == ENDPOINT_ID_SUBNET || sub == RELAY_MAPPED_SUBNET || sub == CUSTOM_MAPPED_SUBNET)));
+            assert!(
+                !(in_range
+                    && (sub == ENDPOINT_ID_SUBNET
+                        || sub == RELAY_MAPPED_SUBNET
+                        || sub == CUSTOM_MAPPED_SUBNET))
+            );
             assert!(a == sa);
         }
     }
@@ -49,13 +72,22 @@ fn private_socket_addr_roundtrip() {
     let o: [u8; 16] = kani::any();
     let ip = Ipv6Addr::from(o);
     if let Ok(m) = EndpointIdMappedAddr::try_from(ip) {
-        match MultipathMappedAddr::from(m.private_socket_addr()) { MultipathMappedAddr::Mixed(x) => assert!(x == m), _ => assert!(false) }
+        match MultipathMappedAddr::from(m.private_socket_addr()) {
+            MultipathMappedAddr::Mixed(x) => assert!(x == m),
+            _ => assert!(false),
+        }
     }
     if let Ok(m) = RelayMappedAddr::try_from(ip) {
-        match MultipathMappedAddr::from(m.private_socket_addr()) { MultipathMappedAddr::Relay(x) => assert!(x == m), _ => assert!(false) }
+        match MultipathMappedAddr::from(m.private_socket_addr()) {
+            MultipathMappedAddr::Relay(x) => assert!(x == m),
+            _ => assert!(false),
+        }
     }
     if let Ok(m) = CustomMappedAddr::try_from(ip) {
-        match MultipathMappedAddr::from(m.private_socket_addr()) { MultipathMappedAddr::Custom(x) => assert!(x == m), _ => assert!(false) }
+        match MultipathMappedAddr::from(m.private_socket_addr()) {
+            MultipathMappedAddr::Custom(x) => assert!(x == m),
+            _ => assert!(false),
+        }
     }
 }
 
